@@ -728,7 +728,7 @@ func preflightParamsDecoding(c *Ctx, w func(format string, a ...any)) {
 						return true
 					}
 					for _, me := range methods {
-						rows = append(rows, nm{me, key, tn + "." + se.Sel.Name})
+						rows = append(rows, nm{me, key, "field " + se.Sel.Name})
 					}
 					return true
 				})
